@@ -19,7 +19,7 @@ import threading
 import time
 
 sys.path.insert(0, os.path.dirname(os.path.abspath(__file__)))
-from rustlex import LostAnchor, locate, code_mask, find_code  # noqa: E402
+from rustlex import LostAnchor, locate, code_mask, find_code, next_open_brace, match_brace  # noqa: E402
 
 VERIF = os.path.dirname(os.path.dirname(os.path.abspath(__file__)))
 KANI_DIR = os.path.join(VERIF, 'contracts', 'kani')
@@ -95,6 +95,24 @@ def build_overlay(repo, scratch, modules, holes=None):
             if not holes or h not in holes:
                 raise LostAnchor('kani module %s needs hole %s which the extractor did not produce' % (mod['name'], h))
             text = text.replace('/*@HOLE %s@*/' % h, holes[h]['content'])
+        # /*@BODY file :: seg :: fn name@*/ : the body block of a real function, cut from the tree
+        # under check on every run (for functions whose real signature drags in types CBMC cannot
+        # afford; the harness supplies a shim receiver and states it)
+        for spec in re.findall(r'/\*@BODY (.*?)@\*/', text):
+            segs = [x.strip() for x in spec.split(' :: ')]
+            fp = os.path.join(crate, segs[0])
+            if not os.path.exists(fp):
+                raise LostAnchor('BODY source %s missing' % segs[0])
+            with open(fp) as f:
+                fsrc = f.read()
+            st, en = locate(fsrc, segs[1:])
+            item = fsrc[st:en]
+            imask = code_mask(item)
+            fm = next(find_code(item, imask, r'\bfn\s+\w+'), None)
+            ob = next_open_brace(item, imask, fm.end()) if fm else -1
+            if ob < 0:
+                raise LostAnchor('BODY %s: no body' % spec)
+            text = text.replace('/*@BODY %s@*/' % spec, item[ob:match_brace(item, imask, ob) + 1])
         mod_path = os.path.join(gen_dir, mod['name'] + '.rs')
         with open(mod_path, 'w') as f:
             f.write(text)
